@@ -380,20 +380,21 @@ func storagePerm(n, size int) []int {
 }
 
 func SharedGeom(g GJ) (geom.Geom, func() string) {
-	var flat []geom.Point
+	// the point lists in the order in which the geometry is built
+	var lists [][]geom.Point
 	var collect func(g GJ)
 	collect = func(g GJ) {
 		switch g.T {
 		case "MultiPoint", "LineString":
-			flat = append(flat, toPts(g.Pts)...)
+			lists = append(lists, toPts(g.Pts))
 		case "MultiLineString", "Polygon":
 			for _, r := range g.Rings {
-				flat = append(flat, toPts(r)...)
+				lists = append(lists, toPts(r))
 			}
 		case "MultiPolygon":
 			for _, p := range g.Polys {
 				for _, r := range p {
-					flat = append(flat, toPts(r)...)
+					lists = append(lists, toPts(r))
 				}
 			}
 		case "GeometryCollection":
@@ -403,12 +404,30 @@ func SharedGeom(g GJ) (geom.Geom, func() string) {
 		}
 	}
 	collect(g)
+	// their places in the one array: in the order of use, reversed or rotated (a function of the sizes), and - for odd
+	// totals - with a sentinel point between two lists, so that a list is not always followed by the list that is used
+	// next (writing "the next list" behind a list is then not a no-op)
+	total := 0
+	for _, l := range lists {
+		total += len(l)
+	}
+	perm := storagePerm(len(lists), total+len(lists))
+	gaps := total%2 == 1
+	off := make([]int, len(lists))
+	var flat []geom.Point
+	for _, li := range perm {
+		off[li] = len(flat)
+		flat = append(flat, lists[li]...)
+		if gaps {
+			flat = append(flat, geom.Point{X: 2345.5 + float64(li), Y: -7654.25})
+		}
+	}
 	flat = append(flat, geom.Point{X: 12345.678, Y: -8765.4321}) // a sentinel after the last list
 	orig := append([]geom.Point(nil), flat...)
-	pos := 0
+	next := 0
 	take := func(n int) []geom.Point {
-		s := flat[pos : pos+n]
-		pos += n
+		s := flat[off[next] : off[next]+n]
+		next++
 		return s
 	}
 	var checks []func() string
